@@ -69,6 +69,11 @@ class Boom(Exception):
     pass
 
 
+class Halt(BaseException):
+    """an application-level signal that does not derive from Exception (asyncio stores it in the task like any other;
+    only KeyboardInterrupt and SystemExit are treated apart)"""
+
+
 # set iteration order: hashes of the scripted objects are crc32(name + SALT); a scenario may carry a `salt`
 # so that different iteration orders of the same tree are explored (and reproduced)
 SALT = ''
@@ -88,6 +93,8 @@ class SJob(AbstractJob):
         self.shutdown_duration = shutdown_duration
         # some scripted failures carry no message at all (str(exc) == ''), like a bare `raise ValueError`
         self.exc = Boom() if kw.pop('empty_exc', False) else Boom(name)
+        if kw.pop('base_exc', False):
+            self.exc = Halt(name)
         self.retval = ('value-of', name)
         super().__init__(label=name, **kw)
 
@@ -220,7 +227,7 @@ def build(spec, loop=None):
                      cancel_delay=sp.get('cancel_delay', 0.0),
                      shutdown_duration=sp.get('shutdown_duration', 0.0), yields=sp.get('yields', 0),
                      critical=sp.get('critical', False), forever=sp.get('forever', False),
-                     empty_exc=sp.get('empty_exc', False))
+                     empty_exc=sp.get('empty_exc', False), base_exc=sp.get('base_exc', False))
         else:
             mem = [mk(m, name) for m in sp.get('members', [])]
             b.members[name] = [m['name'] for m in sp.get('members', [])]
